@@ -5,8 +5,10 @@
 //! usage: coll-mc check --prop C06|C08|C16|C07 --tier quick|thorough
 //!        coll-mc replay --prop <id> --case "<text>"
 
+mod abort;
 mod elem;
 mod split;
+mod strfail;
 mod vecs;
 
 use bump_scope::settings::BumpSettings;
@@ -683,30 +685,137 @@ fn parse_ops(s: &str) -> Option<Vec<VOp>> {
     Some(out)
 }
 
+/// Ok(how the child ended) or Err(violation message); vacuous probes are machinery failures
+fn abort_verdict(ci: usize, name: &str) -> Result<&'static str, String> {
+    match abort::run_child(ci, name) {
+        abort::ProbeResult::Aborted => Ok("abort"),
+        abort::ProbeResult::Unwound => Ok("unwind"),
+        abort::ProbeResult::Returned => Err(format!("panicking method `{name}` returned normally although the base allocator refused memory (its try_ twin reports Err in the same situation)")),
+        abort::ProbeResult::Other(m) => Err(format!("`{name}`: {m}")),
+        abort::ProbeResult::Vacuous(m) => {
+            eprintln!("MACHINERY: abort probe {name} on configuration {ci} is vacuous: {m}");
+            std::process::exit(2);
+        }
+    }
+}
+
+fn explore_abort_probes(thorough: bool) -> (J, Vec<J>) {
+    let t0 = Instant::now();
+    let mut cases = Vec::new();
+    for ci in 0..CFGS.len() {
+        for name in abort::PROBES {
+            cases.push((ci, *name));
+        }
+    }
+    let next = AtomicUsize::new(0);
+    let aborted = AtomicU64::new(0);
+    let unwound = AtomicU64::new(0);
+    let viols: Mutex<Vec<J>> = Mutex::new(Vec::new());
+    let threads = std::thread::available_parallelism().map_or(8, |n| n.get());
+    std::thread::scope(|sc| {
+        for _ in 0..threads {
+            sc.spawn(|| {
+                loop {
+                    let i = next.fetch_add(1, Ordering::Relaxed);
+                    if i >= cases.len() {
+                        break;
+                    }
+                    let (ci, name) = cases[i];
+                    match abort_verdict(ci, name) {
+                        Ok("abort") => {
+                            aborted.fetch_add(1, Ordering::Relaxed);
+                        }
+                        Ok(_) => {
+                            unwound.fetch_add(1, Ordering::Relaxed);
+                        }
+                        Err(m) => {
+                            viols.lock().unwrap().push(J::obj().set("prop", "C07").set("cfg", CFGS[ci].0).set("params", "child process").set("history", name).set("msg", m).set("replay_args", vec!["--case".to_string(), format!("abort:{ci};{name}")]));
+                        }
+                    }
+                }
+            });
+        }
+    });
+    let viols = viols.into_inner().unwrap();
+    let n = cases.len();
+    let mut vac = J::obj();
+    vac.put("ended_by_abort", aborted.load(Ordering::Relaxed));
+    vac.put("ended_by_unwinding_panic", unwound.load(Ordering::Relaxed));
+    let cov = J::obj()
+        .set("evaluations", n)
+        .set("distinct_nontrivial", n)
+        .set("states", n)
+        .set("transitions", n)
+        .set("traces_validated_against_impl", n)
+        .set("rule", "panicking-twin part of C07: every listed panicking entry point (typed allocation methods, reserve, scoped allocation, BumpVec / MutBumpVec / MutBumpVecRev / BumpString / MutBumpString constructors and growth methods, Bump constructors) x 4 arena configurations, each in a child process: the chunk is filled completely, every further base-allocator call is refused, the try_ twin must report Err on an identically prepared arena (otherwise the probe is vacuous = machinery failure) and the panicking twin must not return (accepted: abort via handle_alloc_error, or an unwinding panic)")
+        .set("samples", abort::PROBES.iter().take(8).map(|s| s.to_string()).collect::<Vec<_>>())
+        .set("exhaustive", true)
+        .set("probes", abort::PROBES.len())
+        .set("vacuity_counters", vac);
+    let space = J::obj()
+        .set("property_id", "C07")
+        .set("tier", if thorough { "thorough" } else { "quick" })
+        .set("seed", 0)
+        .set("level", "fault_enumeration")
+        .set("space", "panicking-twins-under-refusal")
+        .set("coverage", cov)
+        .set("wall_s", t0.elapsed().as_secs_f64())
+        .set("violations", viols.len())
+        .set("floor", 100)
+        .set("floor_ok", n >= 100 || !viols.is_empty());
+    (space, viols)
+}
+
 fn main() {
-    vcore::crash::install();
     let args: Vec<String> = std::env::args().collect();
     let cmd = args.get(1).map(String::as_str).unwrap_or("");
+    if cmd != "abort-child" {
+        vcore::crash::install();
+    }
     let prop = arg(&args, "--prop").unwrap_or_default();
     match cmd {
         "check" => {
             let thorough = arg(&args, "--tier").as_deref() == Some("thorough");
             let secs: u64 = arg(&args, "--secs").and_then(|s| s.parse().ok()).unwrap_or(if thorough { 1500 } else { 50 });
             let deadline = Instant::now() + Duration::from_secs(secs);
-            let (space, viols) = match prop.as_str() {
-                "C06" | "C08" => explore_vecs(&prop, thorough, deadline),
-                "C16" => split::explore(thorough, deadline),
-                "C07" => split::explore_alloc_failures(thorough, deadline),
+            let mut results = Vec::new();
+            match prop.as_str() {
+                "C06" | "C08" => results.push(explore_vecs(&prop, thorough, deadline)),
+                "C16" => results.push(split::explore(thorough, deadline)),
+                "C07" => {
+                    results.push(split::explore_alloc_failures(thorough, deadline));
+                    results.push(strfail::explore_str_failures(thorough, deadline));
+                    results.push(explore_abort_probes(thorough));
+                }
                 _ => panic!("unknown property"),
             };
-            for v in &viols {
-                println!("VIOL {}", v.to_string());
+            let mut total = 0;
+            for (space, viols) in &results {
+                for v in viols {
+                    println!("VIOL {}", v.to_string());
+                }
+                println!("SPACE {}", space.to_string());
+                total += viols.len();
             }
-            println!("SPACE {}", space.to_string());
-            println!("DONE violations={}", viols.len());
+            println!("DONE violations={total}");
         }
         "replay" => {
             let case = arg(&args, "--case").expect("--case");
+            if let Some(rest) = case.strip_prefix("abort:") {
+                let (ci, name) = rest.split_once(';').expect("abort:<ci>;<probe>");
+                match abort_verdict(ci.parse().expect("ci"), name) {
+                    Ok(_) => println!("REPLAY OK"),
+                    Err(m) => println!("REPLAY VIOLATION step=0 msg={m}"),
+                }
+                return;
+            }
+            if case.starts_with("strfail:") {
+                match strfail::replay(&case) {
+                    Some(m) => println!("REPLAY VIOLATION step=0 msg={m}"),
+                    None => println!("REPLAY OK"),
+                }
+                return;
+            }
             if case.starts_with("split:") || case.starts_with("fail:") {
                 match split::replay(&case) {
                     Some(m) => println!("REPLAY VIOLATION step=0 msg={m}"),
@@ -721,6 +830,11 @@ fn main() {
                 Verdict::Violation(step, msg) => println!("REPLAY VIOLATION step={step} msg={msg}"),
                 _ => println!("REPLAY OK"),
             }
+        }
+        "abort-child" => {
+            let ci: usize = arg(&args, "--ci").and_then(|s| s.parse().ok()).expect("--ci");
+            let name = arg(&args, "--probe").expect("--probe");
+            abort::child(ci, &name)
         }
         _ => {
             eprintln!("usage: coll-mc check|replay ...");
